@@ -3,7 +3,7 @@
     (printed by [Check]).  [holds s c a m]: connection c is subscribed to mailbox
     (a, m) (it is bound to app a and its handle is m). *)
 From MW Require Import Base Store Monad Usage Server Websocket Service Findings Inv Obs
-     ProtoFacts StepFacts MbFactsA LifeFacts Inst_Params CrashLife DeliveryFacts.
+     ProtoFacts StepFacts MbFactsA LifeFacts Inst_Params CrashLife DeliveryFacts FlagBridge.
 Local Open Scope list_scope.
 
 (** in every well-formed state: an `add` on a connection holding (a, m) is stored
@@ -120,3 +120,12 @@ Example C02_nonvacuous :
     [(2%nat, FAck (Some "i1")); (1%nat, FMessage "B" "pake" "body" 0 (Some "i1"));
      (2%nat, FMessage "B" "pake" "body" 0 (Some "i1")); (3%nat, FMessage "B" "pake" "body" 0 (Some "i1"))].
 Proof. vm_compute. reflexivity. Qed.
+
+(** * the side the adding connection bound to (quoted by type from FlagBridge.v) *)
+
+(** `stamped with the side the adding connection bound to`: [bound_to] is the connection's own bind command, not anything in the add *)
+Theorem C02_bound_is_bind_cmd : ltac:(let t := type of bound_is_bind_cmd in exact t).
+Proof. exact bound_is_bind_cmd. Qed.
+Check C02_bound_is_bind_cmd.
+Print Assumptions C02_bound_is_bind_cmd.
+
